@@ -30,7 +30,7 @@ ASSUMPTIONS = [
     "limit 30",
 ]
 REQUIRED = ["noncontiguous_exact", "contiguous_exact", "limit_rejected", "limit_accepted",
-            "hist_refused_assignment", "hist_step_ok"]
+            "hist_refused_assignment", "hist_step_ok", "hist_group_with_members"]
 
 ALL32 = S.ALL32
 SEED_BASES = [0x0A141E28, 0xC0A80A63, 0xAC100B07, 0x644F2D11, 0x0B16212C]
@@ -473,6 +473,10 @@ def _a_ops(cls):
     ops += [("prefix", p) for p in ("50.0.0.0/25", "50.0.0.9/32")]
     ops += [("platform", p) for p in ("ios", "nxos")]
     ops += [("max_ncwb", v) for v in (1, 16)]
+    # attach group members (meaningful while the line is a group reference; they stay attached)
+    ops += [("items", ("10.0.0.0 0.0.1.3", "host 10.9.9.9") if cls == "a" else ("host 10.9.9.9",))]
+    if cls == "ag":
+        ops += [("line", "group-object G")]
     ops += [("q", q) for q in ("ipnets", "prefixes", "subnets", "wildcards", "ipnet", "line")]
     return ops
 
@@ -500,6 +504,9 @@ def _fresh(cls, obj):
     if cls == "w":
         return Wildcard(obj.line, max_ncwb=30)
     klass = Address if cls == "a" else AddressAg
+    if obj.addrgroup:
+        # a group reference denotes its attached members: the fresh object gets the same members
+        return klass(obj.line, platform=obj.platform, max_ncwb=30, items=[m.line for m in obj.items])
     try:
         return klass(obj.line, platform=obj.platform, max_ncwb=30)
     except ValueError:
@@ -531,6 +538,8 @@ def _apply(cls, obj, op):
             obj.max_ncwb = arg
         elif name == "platform":
             obj.platform = arg
+        elif name == "items":
+            obj.items = list(arg)
         elif name == "q":
             val = getattr(obj, arg)
             if callable(val):
@@ -553,6 +562,8 @@ def _run_history(cls, ops, ctx, record=True):
                      "documented ValueError/TypeError or success")
             return
         ctx.trans()
+        if res == "ok" and cls != "w" and obj.addrgroup and obj.items:
+            ctx.out("hist_group_with_members")
         if res == "refused" and op[0] not in ("line", "prefix"):
             # C05 speaks about a refused LINE assignment; what a refused platform change leaves
             # behind (e.g. after max_ncwb was lowered below what the current line needs) is
